@@ -186,11 +186,30 @@ pub fn inputs(ctx: &mut Ctx, tag: u64, f: &mut dyn FnMut(&mut Ctx, &str, u32)) {
     }
     let (n_soup, n_rec) = if ctx.thorough { (400_000, 300_000) } else { (8_000, 8_000) };
     for i in 0..n_soup { let s = gen::soup(&mut rng, 12); f(ctx, &s, gen::ext_pattern(i % 256)); }
+    // label-adjacent insertions: for inputs whose report carries labels, put zero-width / wide / multi-byte
+    // characters exactly at the label boundaries (where a renderer slices the source and measures widths)
+    let mut label_budget = if ctx.thorough { 6_000usize } else { 250 };
     for i in 0..n_rec {
         let mut s = gen::recipe(&mut rng);
         if i % 3 == 0 { s = gen::mutate(&mut rng, &s); }
         let e = match i % 4 { 0 => 0, 1 => 0xEEA, _ => gen::ext_pattern(rng.below(256)) };
         f(ctx, &s, e);
+        if label_budget > 0 && s.len() < 400 {
+            let ext = Extensions::from_bits_retain(e);
+            let labels: Vec<Span> = guarded(|| CooklangParser::new(ext, Converter::bundled()).parse(&s).report().iter().flat_map(|d| d.labels.iter().map(|l| l.0).collect::<Vec<_>>()).collect::<Vec<Span>>()).unwrap_or_default();
+            if labels.is_empty() { continue; }
+            label_budget -= 1;
+            ctx.count("label-adjacent:bases");
+            let mut positions: Vec<usize> = labels.iter().take(3).flat_map(|l| [l.start(), l.end()]).filter(|p| *p <= s.len() && s.is_char_boundary(*p)).collect();
+            positions.sort_unstable(); positions.dedup();
+            for p in positions {
+                for _ in 0..2 {
+                    let ins = rng.pick_str(&["\u{200B}", "\u{0301}", "\u{FE0F}", "é", "😀", "\t", "\u{3000}", "“"]);
+                    let t = format!("{}{}{}", &s[..p], ins, &s[p..]);
+                    f(ctx, &t, e);
+                }
+            }
+        }
     }
 }
 
